@@ -57,6 +57,15 @@ func verifRegister(name string, f verifStream) bool {
 	return true
 }
 
+var verifFactFns []func() map[string]int64
+
+// verifRegisterFacts registers a function returning named integer constants of the current
+// source; the `facts` stream prints them and vcheck regenerates lean/Restic/Gen/Consts.lean.
+func verifRegisterFacts(f func() map[string]int64) bool {
+	verifFactFns = append(verifFactFns, f)
+	return true
+}
+
 func (h *H) Thorough() bool { return h.Tier == "thorough" }
 
 // N picks the case count for the tier.
